@@ -1,3 +1,4 @@
+-- properties: C04 C11
 /-
   C04 / C11 — the AVR container (stand-alone L1 model SfModel/Avr.lean over SfModel/SmallSession.lean; helpers
   SfProofs/SmallSession.lean, SfProofs/Avr.lean).  Property theorems only.
